@@ -11,13 +11,13 @@ def run(case, fast=True):
     name, pid, file, old, new, expect = case
     d = tempfile.mkdtemp(prefix='undermoon-selftest.', dir=os.environ.get('VERIF_SCRATCH', '/var/tmp'))
     try:
-        subprocess.run(['rsync', '-a', '--exclude', 'target', '--exclude', '.git', '/repo/', d + '/repo/'], check=True)
+        subprocess.run(['rsync', '-a', '--exclude', 'target', '--exclude', '.git', os.environ.get('VERIF_REPO', '/repo').rstrip('/') + '/', d + '/repo/'], check=True)
         p = os.path.join(d, 'repo', file)
         s = open(p).read()
         if s.count(old) < 1:
             return name, pid, expect, 'PATTERN-NOT-FOUND', ''
         open(p, 'w').write(s.replace(old, new, 1))
-        env = dict(os.environ, VERIF_REPO=os.path.join(d, 'repo'), VERIF_OUT=os.path.join(d, 'out'))
+        env = dict(os.environ, VERIF_REPO=os.path.join(d, 'repo'), VERIF_OUT=os.path.join(d, 'out'), VERIF_SELFTEST_CHILD='1')
         if fast:
             env['VERIF_SKIP_KANI'] = '1'
         r = subprocess.run([os.path.join(VERIF, 'check'), pid, 'quick'], capture_output=True, text=True, env=env, timeout=3600)
